@@ -34,16 +34,22 @@ def run(R):
         mc = R.model_check("MC_ThriftEdit", "MC_ThriftEdit_%s.cfg" % cfg, timeout=3000, workers=8, name="MC_ThriftEdit_" + cfg)
         cases += cases_from(mc, seen)
         mc["records"] = None
+    # thorough: TLC visits millions of histories; all of them are model-checked, a seeded sample of at most 250 000 is replayed
+    total_hist = len(cases)
+    if len(cases) > 250000:
+        k = (len(cases) + 249999) // 250000
+        cases = cases[R.seed % k::k]
+    R.extra_cov["tlc_histories_model_checked"] = total_hist
     cf = os.path.join(R.scratch, "c04-cases.ndjson")
     with open(cf, "w") as f:
         for c in cases:
             f.write(json.dumps(c) + "\n")
     R.samples.append(dict(kind="tlc-history", **cases[len(cases) // 3]))
     tr1 = os.path.join(R.scratch, "c04-a.ndjson")
-    R.drive("c04", "out=" + tr1, "cases=" + cf, timeout=3000)
+    R.drive("c04", "out=" + tr1, "cases=" + cf, timeout=6000)
     R.validate("Trace_ThriftEdit", tr1, timeout=3000)
     tr2 = os.path.join(R.scratch, "c04-b.ndjson")
-    n = 1500 if q else 60000
+    n = 1500 if q else 30000
     R.drive("c04", "out=" + tr2, "n=%d" % n, "seed=%d" % R.seed, timeout=3000)
     with open(tr2) as f:
         for i, ln in enumerate(f):
